@@ -35,6 +35,8 @@ def jobs(tier):
         add('element_job', 'element[%s]' % list(lv), lengths=lv, form='nested' if sum(lv) % 2 else 'flat')
         if len(lv) <= 2 or sum(lv) <= 5:
             add('elements2d_job', 'vector-elements[%s]' % list(lv), lengths=lv, form='nested' if sum(lv) % 2 else 'flat')
+        if len(lv) >= 2 and sum(lv) <= 6:
+            add('index_args_job', 'ndarray-index-arguments[%s]' % list(lv), lengths=lv)
         if sum(lv) <= (5 if q else 7):
             add('mask_job', 'mask[%s]' % list(lv), lengths=lv, form='nested')
     return J
